@@ -131,11 +131,13 @@ fn rstub_read_entry(_r: &mut crate::bitbox::wal::WalBlobReader) -> anyhow::Resul
     if step >= 2 || kani::any() {
         return Ok(None);
     }
-    let bucket: u64 = kani::any();
-    kani::assume(bucket < 4);
-    if kani::any() {
-        Ok(Some(wal::WalEntry::Clear { bucket }))
-    } else {
+    // concrete bucket: its meta page index is inserted into a std HashSet (SipHash), which CBMC
+    // only gets through for concrete inputs
+    let bucket: u64 = 1;
+    // (Clear entries and Updates of a bucket whose meta byte changes insert into a std HashSet;
+    // hashbrown's insert path is beyond CBMC here, so the harness replays Updates of a bucket
+    // that is already marked full with this page's tag: the bucket page itself is rewritten)
+    {
         Ok(Some(wal::WalEntry::Update {
             page_id: kani::any(),
             page_diff: crate::page_diff::PageDiff::default(),
@@ -149,14 +151,18 @@ fn rstub_read_page(pool: &PagePool, _fd: &File, _pn: u64) -> std::io::Result<cra
     inject()?;
     Ok(crate::io::page_pool::verif_kani::kani_fat_page(pool))
 }
+const RECOVER_HASH: u64 = 0xABCD_0000_0000_0001;
 fn rstub_hash_raw(_page_id: [u8; 32], _seed: &[u8; 16]) -> u64 {
-    kani::any()
+    RECOVER_HASH
 }
-fn rstub_unpack(_d: &crate::page_diff::PageDiff, _nodes: &[[u8; 32]], _page: &mut [u8]) {}
+/// std's RandomState draws its keys from the OS; fixed keys keep the HashSet hashing concrete.
+fn rstub_random_state() -> std::hash::RandomState {
+    unsafe { std::mem::transmute::<(u64, u64), std::hash::RandomState>((0, 0)) }
+}
 
-/// recover() for every WAL of up to two entries (any mix of Clear / Update, any buckets of a
-/// 4-bucket map), every outcome of the sequence-number comparison and every single or multiple
-/// I/O failure:
+/// recover() for every WAL of up to two Update entries (any page id, any elided-children word),
+/// every outcome of the sequence-number comparison and every single or multiple I/O failure
+/// (bounded: see the note in rstub_read_entry; the meta-page write loop is not exercised):
 ///  * [C04] the WAL is truncated only when every hash-table write issued by the replay has been
 ///    followed by an fsync of the hash-table file, and nothing is written to it afterwards;
 ///  * [C04] a WAL of another sync is discarded without touching the hash table;
@@ -171,7 +177,9 @@ fn rstub_unpack(_d: &crate::page_diff::PageDiff, _nodes: &[[u8; 32]], _page: &mu
 #[kani::stub(crate::bitbox::wal::WalBlobReader::read_entry, rstub_read_entry)]
 #[kani::stub(crate::io::read_page, rstub_read_page)]
 #[kani::stub(hash_raw_page_id, rstub_hash_raw)]
-#[kani::stub(crate::page_diff::PageDiff::unpack_changed_nodes, rstub_unpack)]
+#[kani::stub(std::hash::RandomState::new, rstub_random_state)]
+// anyhow captures a std Backtrace whenever an io::Error is converted with `?`: far beyond CBMC
+#[kani::stub(std::backtrace::Backtrace::capture, std::backtrace::Backtrace::disabled)]
 #[kani::stub(crate::io::PagePool::alloc, crate::io::page_pool::verif_kani::stub_alloc)]
 #[kani::stub(crate::io::PagePool::dealloc, crate::io::page_pool::verif_kani::stub_dealloc)]
 fn recover_syncs_ht_before_truncating_wal() {
@@ -180,6 +188,7 @@ fn recover_syncs_ht_before_truncating_wal() {
     let pool = crate::io::page_pool::verif_kani::kani_page_pool();
     let offsets = ht_file::verif_kani::kani_offsets(1);
     let mut map = meta_map::verif_kani::meta_map_one_page(4);
+    map.set_full(1, RECOVER_HASH);
     let seed: [u8; 16] = kani::any();
     let sync_seqn: u32 = kani::any();
     unsafe { WAL_SEQN = kani::any(); }
